@@ -130,10 +130,10 @@ pub struct Produced {
 }
 
 /// All satisfactions the library returns for input `i` in the state of `psbt`.
-pub fn produce_all(w: &mut World, actor: &str, psbt: &Psbt, i: usize) -> (Vec<Produced>, [bool; 4]) {
+pub fn produce_all(w: &mut World, actor: &str, psbt: &Psbt, i: usize) -> (Vec<Produced>, [bool; 6]) {
     let desc = w.env.inputs[i].desc.clone();
     let mut out = vec![];
-    let mut ok = [false; 4];
+    let mut ok = [false; 6];
     let env = w.env.clone();
     let mut sat = WorldSat::from_psbt(&env.uni, &env.by_expr, psbt, i);
     if w.mon.corruption {
@@ -158,6 +158,22 @@ pub fn produce_all(w: &mut World, actor: &str, psbt: &Psbt, i: usize) -> (Vec<Pr
     if let Some(Some(Ok((wit, ss)))) = r {
         ok[3] = true;
         out.push(Produced { label: "plan_mall.satisfy", mall: true, wit, ss });
+    }
+    // the library's own PSBT-backed satisfier over the same PSBT input (same world, other lookup code)
+    if !w.mon.corruption {
+        let r = guard(w, "psbt-satisfier get_satisfaction", actor, |_| desc.get_satisfaction(miniscript::psbt::PsbtInputSatisfier::new(psbt, i)));
+        if let Some(Ok((wit, ss))) = r {
+            ok[4] = true;
+            out.push(Produced { label: "psbt-satisfier get_satisfaction", mall: false, wit, ss });
+        }
+        let r = guard(w, "psbt-satisfier get_satisfaction_mall", actor, |_| desc.get_satisfaction_mall(miniscript::psbt::PsbtInputSatisfier::new(psbt, i)));
+        if let Some(Ok((wit, ss))) = r {
+            ok[5] = true;
+            out.push(Produced { label: "psbt-satisfier get_satisfaction_mall", mall: true, wit, ss });
+        }
+    } else {
+        ok[4] = ok[0];
+        ok[5] = ok[1];
     }
     // Descriptor::satisfy writes into a TxIn
     let r = guard(w, "Descriptor::satisfy", actor, |_| {
